@@ -131,6 +131,10 @@ def build(fluxcase, rendered, damage=None):
                 # a sector recorded with another size code (128 << n bytes of data, ID and CRCs consistent with it)
                 secs = [(r, (pl + bytes([0xB5]) * 1024)[:128 << big['%d:%d:%d' % (s, t, r)]], mk, [t, s, r, big['%d:%d:%d' % (s, t, r)]])
                         if '%d:%d:%d' % (s, t, r) in big else (r, pl, mk, ov) for r, pl, mk, ov in secs]
+            if s in (fluxcase.get('blank_sides') or ()):
+                # an unformatted side: a track of gap bytes, no address marks at all
+                secs = []
+                p = dict(p, gap4=rng.choice([3000, 6000]) if enc == 'mfm' else rng.choice([1500, 3000]), index_mark=False)
             cells, regions = flux.encode_track(enc, t, s, secs, p)
             info['regions'][(s, t)] = regions
             info['order'][(s, t)] = order
@@ -166,6 +170,7 @@ def build(fluxcase, rendered, damage=None):
         if s_ in alt0:
             ho[str(0x16 + 2 * s_)] = 0x00
             ho[str(0x17 + 2 * s_)] = code
+    ho.update(fluxcase.get('hdr') or {})     # any other header byte, by offset
     return flux.hfe_file(version, enc, trk, sides, pad_tracks=pad, exact_len=exact, header_overrides=ho or None), info
 
 
